@@ -397,3 +397,136 @@ GROUPS += [
     ("MadeT", g_made_t, ["nflows/transforms/made.py"]),
     ("MadeN", g_made_n, ["nflows/nn/nde/made.py"]),
 ]
+
+
+# ---------------------------------------------------------------- Linear cache protocol
+def _bool_expr_self(e, env):
+    """boolean expression over `self.<attr>` flags: not/and/or"""
+    if isinstance(e, ast.Attribute) and isinstance(e.value, ast.Name) and e.value.id == "self" and e.attr in env:
+        return env[e.attr]
+    if isinstance(e, ast.UnaryOp) and isinstance(e.op, ast.Not):
+        return "(negb %s)" % _bool_expr_self(e.operand, env)
+    if isinstance(e, ast.BoolOp):
+        op = "andb" if isinstance(e.op, ast.And) else "orb"
+        parts = [_bool_expr_self(v, env) for v in e.values]
+        out = parts[0]
+        for p_ in parts[1:]:
+            out = "(%s %s %s)" % (op, out, p_)
+        return out
+    if isinstance(e, ast.Compare) and len(e.ops) == 1 and isinstance(e.ops[0], (ast.Is, ast.IsNot)) \
+            and isinstance(e.comparators[0], ast.Constant) and e.comparators[0].value is None:
+        s = ast.unparse(e.left)
+        if s in env:
+            return env[s] if isinstance(e.ops[0], ast.Is) else "(negb %s)" % env[s]
+    raise Untranslatable("boolean expression over self flags", e)
+
+
+def _fill_chain(fn, fields):
+    """if/elif chain whose tests are over `self.cache.X is None` and whose bodies assign self.cache.Y
+    -> coq term of type (bool * bool): which of the two fields get (re)computed"""
+    env = {"self.cache.%s" % f: v for f, v in fields.items()}
+    body = [s for s in fn.body if not (isinstance(s, ast.Expr) and isinstance(s.value, ast.Constant))]
+    if len(body) != 1 or not isinstance(body[0], ast.If):
+        raise Untranslatable("cache check: expected a single if/elif chain", fn)
+
+    def assigned(stmts):
+        got = set()
+        for s in stmts:
+            if not isinstance(s, ast.Assign):
+                raise Untranslatable("cache check: statement form", s)
+            for t in s.targets:
+                elts = t.elts if isinstance(t, ast.Tuple) else [t]
+                for el in elts:
+                    nm = ast.unparse(el)
+                    if nm not in env:
+                        raise Untranslatable("cache check: assigns %s" % nm, s)
+                    got.add(nm)
+            src_ = ast.unparse(s.value)
+            if "self.cache" in src_:
+                raise Untranslatable("cache check: fills from the cache itself", s)
+        names = list(env)
+        return "(%s, %s)" % tuple("true" if n in got else "false" for n in names)
+
+    def chain(st):
+        test = _bool_expr_self(st.test, env)
+        then = assigned(st.body)
+        if not st.orelse:
+            els = "(false, false)"
+        elif len(st.orelse) == 1 and isinstance(st.orelse[0], ast.If):
+            els = chain(st.orelse[0])
+        else:
+            els = assigned(st.orelse)
+        return "(if %s then %s else %s)" % (test, then, els)
+    return chain(body[0])
+
+
+def g_linear_cache(repo):
+    src = Source(repo, "nflows/transforms/linear.py")
+    defs = []
+    env = {"training": "training", "using_cache": "usingc"}
+    for meth in ("forward", "inverse"):
+        m = src.method("Linear", meth)
+        body = [s for s in m.body if not (isinstance(s, ast.Expr) and isinstance(s.value, ast.Constant))]
+        if len(body) != 1 or not isinstance(body[0], ast.If) or len(body[0].orelse) != 1:
+            raise Untranslatable("Linear.%s: expected `if <cache test>: ... else: return self.%s_no_cache(inputs)`"
+                                 % (meth, meth), m)
+        if ast.unparse(body[0].orelse[0]) != "return self.%s_no_cache(inputs)" % meth:
+            raise Untranslatable("Linear.%s: uncached branch" % meth, body[0].orelse[0])
+        defs.append(("lin_%s_uses_cache" % meth,
+                     "Definition lin_%s_uses_cache (training usingc : bool) : bool :=\n  %s.\n"
+                     % (meth, _bool_expr_self(body[0].test, env))))
+        first = body[0].body[0]
+        want = "self._check_%s_cache()" % meth
+        if ast.unparse(first) != want:
+            raise Untranslatable("Linear.%s: cached branch must start with %s" % (meth, want), first)
+        # which cache fields the cached branch reads
+        txt = " ".join(ast.unparse(s) for s in body[0].body[1:])
+        reads = [fld for fld in ("weight", "inverse", "logabsdet") if ("self.cache.%s" % fld) in txt]
+        expect = ["weight", "logabsdet"] if meth == "forward" else ["inverse", "logabsdet"]
+        if reads != expect:
+            raise Untranslatable("Linear.%s reads cache fields %s, expected %s" % (meth, reads, expect), m)
+        if "self.bias" not in txt:
+            raise Untranslatable("Linear.%s: cached branch does not read the live bias" % meth, m)
+    defs.append(("lin_forward_fill", "Definition lin_forward_fill (wn ln : bool) : bool * bool :=\n  %s.\n"
+                 % _fill_chain(src.method("Linear", "_check_forward_cache"), {"weight": "wn", "logabsdet": "ln"})))
+    defs.append(("lin_inverse_fill", "Definition lin_inverse_fill (wn ln : bool) : bool * bool :=\n  %s.\n"
+                 % _fill_chain(src.method("Linear", "_check_inverse_cache"), {"inverse": "wn", "logabsdet": "ln"})))
+    # train(mode): invalidates iff mode
+    tr = src.method("Linear", "train")
+    body = [s for s in tr.body if not (isinstance(s, ast.Expr) and isinstance(s.value, ast.Constant))]
+    inval = False
+    if body and isinstance(body[0], ast.If) and isinstance(body[0].test, ast.Name) and body[0].test.id == "mode" \
+            and any(ast.unparse(s) == "self.cache.invalidate()" for s in body[0].body) and not body[0].orelse:
+        inval = True
+    if not (body and ast.unparse(body[-1]) == "return super().train(mode)"):
+        raise Untranslatable("Linear.train: must end with return super().train(mode)", tr)
+    defs.append(("lin_train_invalidates", "Definition lin_train_invalidates : bool := %s.\n" % ("true" if inval else "false")))
+    # invalidate() clears all three fields
+    inv = src.method("LinearCache", "invalidate")
+    cleared = sorted(ast.unparse(s.targets[0]) for s in inv.body
+                     if isinstance(s, ast.Assign) and isinstance(s.value, ast.Constant) and s.value.value is None)
+    ok = cleared == ["self.inverse", "self.logabsdet", "self.weight"]
+    defs.append(("lin_invalidate_clears_all", "Definition lin_invalidate_clears_all : bool := %s.\n" % ("true" if ok else "false")))
+    # hooks that replace parameter values behind the cache's back
+    cls = src.cls("Linear")
+    meths = {m.name: m for m in cls.body if isinstance(m, ast.FunctionDef)}
+
+    def calls_invalidate(name, supercall):
+        m = meths.get(name)
+        if m is None:
+            return False
+        txt = [ast.unparse(s) for s in m.body]
+        return any("self.cache.invalidate()" in t for t in txt) and any(supercall in t for t in txt)
+    defs.append(("lin_load_invalidates", "Definition lin_load_invalidates : bool := %s.\n"
+                 % ("true" if calls_invalidate("_load_from_state_dict", "super()._load_from_state_dict(") else "false")))
+    defs.append(("lin_apply_invalidates", "Definition lin_apply_invalidates : bool := %s.\n"
+                 % ("true" if calls_invalidate("_apply", "super()._apply(") else "false")))
+    # use_cache only flips the flag
+    uc = src.method("Linear", "use_cache")
+    assigns = [ast.unparse(s) for s in uc.body if isinstance(s, ast.Assign)]
+    if assigns != ["self.using_cache = mode"]:
+        raise Untranslatable("Linear.use_cache: expected only `self.using_cache = mode`", uc)
+    return defs, ""
+
+
+GROUPS += [("LinearCache", g_linear_cache, ["nflows/transforms/linear.py"])]
